@@ -192,8 +192,10 @@ class Engine:
         self._add(cond)
 
     # ----------------------------------------------------------------- obligations
-    def ensure(self, name: str, cond, *, canary: bool = False, note: str = '') -> None:
-        """State an obligation: under the current path condition `cond` must hold."""
+    def ensure(self, name: str, cond, *, canary: bool = False, note: str = '', z3_ms: int | None = None) -> None:
+        """State an obligation: under the current path condition `cond` must hold.
+        `z3_ms`: a shorter budget for the in-process z3 on this obligation (word equations, where cvc5 is the
+        solver that decides them: hand over quickly instead of waiting for z3's full time-out)."""
         if self.dead:
             return
         cond = _term(cond)
@@ -209,7 +211,11 @@ class Engine:
             neg = z3.Not(cond)
             self.solver.push()
             self.solver.add(neg)
+            if z3_ms is not None:
+                self.solver.set('timeout', min(z3_ms, self.timeout_ms))
             r = self.solver.check()
+            if z3_ms is not None:
+                self.solver.set('timeout', self.timeout_ms)
             smt = ''
             model = None
             backend = 'z3-' + z3.get_version_string()
